@@ -106,6 +106,7 @@ def run(rep: Report, tier: str) -> None:
     # ---------------------------------------------------------------- C12.c
     rc = rep.rule("C12.c", "sheet structure guards: eight state x token faults, asset / class mismatch, missing sheet", floor=12)
     _check_structure(rep, rc, m)
+    _check_tokens(rep, rc, m)
 
     # ---------------------------------------------------------------- C12.d
     rd = rep.rule("C12.d", "config and command line: unknown/repeated/empty parts raise; -m restricted, defaults to 'not given', conflicts with the config section", floor=14)
@@ -499,3 +500,30 @@ def _check_exit(rep: Report, rule: str, m) -> None:
     tail = frg.node.body[-1]
     ok = isinstance(tail, ast.If) and unparse(tail.test) == "generators" and "sys.exit(1)" in unparse(tail.body[-1])
     rep.check(ok, rule, frg.module, frg.qualname, "configured generators that were not found => exit 1", "unknown report generators no longer make the run exit with status 1", loc(frg.node))
+
+
+def _check_tokens(rep: Report, rule: str, m) -> None:
+    """The structure guards are stated over three token predicates; what counts as empty / table end / table begin is part of the guard."""
+    from ..consts import UNKNOWN, fold_module_const
+
+    prog, norm = m.prog, m.norm
+    P = "rp2.ods_parser"
+    v = ("sym", "v")
+    args = {"cell_value": (v, ("prim", "str"))}
+    ctx = Ctx(P, None)
+    emp = prog.func(P, "_is_empty")
+    t = norm.inline(emp, None, args, ctx)
+    want = ("or", tuple(sorted([("cmp", "==", v, ("const", "")), ("cmp", "is", v, ("const", None))], key=tkey)))
+    rep.check(tkey(t) == tkey(want), rule, P, "_is_empty", "empty cell = None or the empty string, nothing else", f"_is_empty normalises to {show(t)[:160]}; expected 'cell_value is None or cell_value == \"\"': a wider notion of empty lets a malformed row (e.g. '-') end or skip a table silently", loc(emp.node))
+    end = prog.func(P, "_is_table_end")
+    t = norm.inline(end, None, args, ctx)
+    tok = fold_module_const(prog, P, "_TABLE_END")
+    rep.check(tok == "TABLE END" and t == ("cmp", "==", v, ("const", "TABLE END")), rule, P, "_is_table_end", "table end token is exactly 'TABLE END'", f"_is_table_end normalises to {show(t)[:120]} with _TABLE_END = {tok!r}", loc(end.node))
+    beg = prog.func(P, "_is_table_begin")
+    t = norm.inline(beg, None, args, ctx)
+    kinds = sorted({s2[3][1].member for s2 in subterms(t) if s2[0] == "cmp" and s2[1] == "==" and s2[3][0] == "const" and hasattr(s2[3][1], "member")})
+    rep.check(t[0] == "or" and kinds == ["IN", "INTRA", "OUT"], rule, P, "_is_table_begin", "table begin = the IN, OUT or INTRA keyword", f"_is_table_begin normalises to {show(t)[:200]} (kinds {kinds}); expected the disjunction of the three table keywords", loc(beg.node))
+    gst = prog.func("rp2.entry_types", "EntrySetType.get_entry_set_type_from_string")
+    txt = [unparse(s2) for s2 in gst.body]
+    ok = any("has_value(entry_set_type.lower())" in x and "return None" in x for x in txt) and txt[-1] == "return EntrySetType[entry_set_type.upper()]"
+    rep.check(ok, rule, gst.module, gst.qualname, "table keywords are matched case-insensitively against the EntrySetType values, anything else is no keyword", f"get_entry_set_type_from_string is {txt}", loc(gst.node))
